@@ -114,3 +114,18 @@ package throttle
 //@     set val := r
 //@   callee updateDistrMetrics(s, e)
 //@     preserves inMemoryLimiter, Event
+
+// rule.isMatch (C16: "the limit selected by the first matching rule"): a rule
+// matches iff, for every condition, the string form of the event's field (whatever
+// its JSON type; "" when absent) equals the configured value - nothing else decides.
+
+//@ func (*rule).isMatch
+//@   requires len(r.values) >= len(r.fields)
+//@   ghost alleq bool = true
+//@   ensures result == alleq
+//@   loop 1 invariant alleq && rangeindex < len(r.fields)
+//@   callee Dig(path) (n)
+//@     pure
+//@   callee AsString() (s)
+//@     pure
+//@     set alleq := alleq && s == r.values[rangeindex]
